@@ -16,7 +16,10 @@ use crate::streaming::systems::COMPONENT;
 use crate::streaming::users::permissioner::Permissioner;
 use crate::streaming::users::user::User;
 use crate::versioning::SemanticVersion;
+#[cfg(not(kani))]
 use ahash::AHashMap;
+#[cfg(kani)]
+use iggy::verif_model::map::AHashMap;
 use error_set::ErrContext;
 use iggy::error::IggyError;
 use iggy::locking::IggySharedMut;
@@ -26,8 +29,14 @@ use iggy::utils::byte_size::IggyByteSize;
 use iggy::utils::crypto::{Aes256GcmEncryptor, EncryptorKind};
 use std::path::Path;
 use std::sync::Arc;
+#[cfg(not(kani))]
 use tokio::fs::{create_dir_all, remove_dir_all};
+#[cfg(kani)]
+use iggy::verif_model::fs::{create_dir_all, remove_dir_all};
+#[cfg(not(kani))]
 use tokio::sync::{RwLock, RwLockReadGuard, RwLockWriteGuard};
+#[cfg(kani)]
+use iggy::verif_model::lock::{RwLock, RwLockReadGuard, RwLockWriteGuard};
 use tokio::time::Instant;
 use tracing::{error, info, instrument, trace};
 
